@@ -459,6 +459,11 @@ def replay(history, owners=('o1', 'o2', 'o3', 'o4', 'o5', 'o6')):
                     gc_pass(w, str(item[1][0]), item[2], emit)
                     continue
                 a = [str(x) for x in item[1]]
+                # the environment's own moves are the harness's: one that no longer applies
+                # because an action inside an earlier pass was dropped (see gc_pass) is skipped
+                if item[0] in ('OwnerAppears', 'OwnerDisappears') and \
+                        (item[0] == 'OwnerAppears') == os.path.isdir(w._owner_dirs(a[0])[0]):
+                    continue
                 emit(item[0], a, w.apply(item[0], a))
         return lines
     finally:
